@@ -952,7 +952,11 @@ func (g *c6Gen) str(d int) *c6Node {
 
 func (g *c6Gen) cmp(d int) *c6Node {
 	if g.r.Intn(5) == 0 { // string comparison
-		op := pick(g.r, []string{"=", "=", "!=", "=", ">", "<>"})
+		op := pick(g.r, []string{"=", "=", "!=", "=", ">", "<>", "<=", ">=", "<"})
+		if g.r.Intn(3) == 0 {
+			// the bare text column against a literal it can be equal to: the boundary of <= and >=
+			return &c6Node{K: c6Cmp, T: 'B', Op: op, Args: []*c6Node{{K: c6Col, T: 'S', Op: g.s}, g.strLit()}}
+		}
 		return &c6Node{K: c6Cmp, T: 'B', Op: op, Args: []*c6Node{g.str(min(d, 1)), g.strLit()}}
 	}
 	op := pick(g.r, []string{"=", "!=", "<", "<=", ">", ">=", ">", "<", ">=", "<=", "<>", "=", "!="})
